@@ -167,6 +167,9 @@ func TestC04_Reconnects(t *testing.T) {
 				ce := rapid.IntRange(0, 1).Draw(t, "connErrs")
 				a.mu.Lock()
 				a.connErrs = ce
+				if ce > 0 {
+					a.connErr = rapid.SampledFrom(watchErrFlavours).Draw(t, "connectErrorFlavour").err
+				}
 				a.plans = []sessPlan{mkPlan()}
 				a.mu.Unlock()
 				nconnerr += ce
